@@ -84,7 +84,7 @@ Definition expand_parse (mode : Z) (e : expand) (o : str) : expand * list str :=
   end.
 
 (* ---- blockattributes ---- *)
-Definition drop_last (s : str) : str := rev (tl (rev s)).
+Definition drop_last (s : str) : str := frev (tl (frev s)).
 Definition opt_nonempty (o : option str) : bool := match o with Some (_ :: _) => true | _ => false end.
 Definition oget (o : option str) : str := match o with Some s => s | None => [] end.
 
@@ -648,9 +648,9 @@ Fixpoint consumeBlockAttributes (n : nat) (rd : reader) (blanks : Z) (acc : str)
 
 Definition pop_listid : M unit :=
   s <- get ;;
-  match rev (s_listids s) with
+  match frev (s_listids s) with
   | [] => raise ExPopEmpty
-  | _ :: r => modify (fun s => set_listids s (rev r))
+  | _ :: r => modify (fun s => set_listids s (frev r))
   end.
 
 Definition item_text (it : item) : option str := grp (it_m it) (re_groups (li_re (it_def it))).
